@@ -59,6 +59,9 @@ func runSolver(sp solverSpec, file string, timeout time.Duration) (string, strin
 			break
 		}
 	}
+	if first == "" && strings.Contains(text, "interrupted by timeout") {
+		first = "timeout"
+	}
 	if first == "" || strings.Contains(text, "(error ") {
 		if ctx.Err() != nil {
 			first = "timeout"
